@@ -87,8 +87,16 @@ Theorem C06_reject_too_many : forall g st ns net name fields rest ty id rules,
   match_type g (last_str (split_on DOT name)) = Some (ty, id) ->
   assoc_get ty (g_dict g) = Some rules -> rules <> [] ->
   Forall (fun r => length (r_params r) < length fields) rules ->
-  parse_cpt g st ns net name fields rest = Err ETooMany.
+  parse_cpt g st ns net name fields rest = Err ETooMany
+  \/ parse_cpt g st ns net name fields rest = Err EUnknownKw.
 Proof. exact reject_too_many. Qed.
+Theorem C06_reject_unknown_keyword : forall g st ns net name fields rest ty id r0 rs r leak p,
+  no_empty_ns name = true ->
+  match_type g (last_str (split_on DOT name)) = Some (ty, id) ->
+  assoc_get ty (g_dict g) = Some (r0 :: rs) ->
+  select (r0 :: rs) fields r0 None = (r, [], leak) -> r_pos r = Some p -> p < length fields ->
+  parse_cpt g st ns net name fields rest = Err EUnknownKw.
+Proof. exact reject_unknown_keyword. Qed.
 Theorem C06_reject_missing_node : forall r fields name ns dflt j p,
   length fields <= length (r_params r) ->
   nth_error (r_params r) j = Some p -> is_nodekind (p_kind p) = true -> length fields <= j ->
@@ -133,6 +141,7 @@ Print Assumptions C06_reject_empty_namespace.
 Print Assumptions C06_reject_unbalanced.
 Print Assumptions C06_reject_unknown_type.
 Print Assumptions C06_reject_too_many.
+Print Assumptions C06_reject_unknown_keyword.
 Print Assumptions C06_reject_missing_node.
 Print Assumptions C06_reject_unknown_param.
 Print Assumptions C06_reject_duplicate_param.
